@@ -1,9 +1,11 @@
 """C17 — shutdown is graceful.
 
 P : coq/Shutdown/{Model,Proofs,Props}.v — the accept/shutdown loop of main.rs (admin_only, the
-    drain channel as an explicit FIFO queue, the exit channel of capacity one, the timer task) and
-    the client-side protocol (gate captured at accept, +1 / -1, poll of the broadcast in the outer
-    loop only, panic exits), theorems over every event sequence.
+    drain channel as an explicit bounded FIFO, the exit channel of capacity one, try_send into both,
+    the timer task; the SIGINT arm split at the broadcast) and the client-side protocol (gate captured
+    at accept, answered before counted, +1 / -1, poll of the broadcast in the outer loop only, panic
+    exits); theorems over every event sequence, incl. unguarded exit liveness; the pre-74943d0
+    awaiting loop and shutdown_timeout = 0 are kept as mutants with their refutations.
 T2: the same abstract scripts are (a) run in-process through the wire harness (transcribed accept
     loop + the real client_entrypoint; control messages, admin SHUTDOWN with real signals) and
     (b) against the REAL pgcat binary as a subprocess (python socket clients, standalone mock
@@ -11,7 +13,11 @@ T2: the same abstract scripts are (a) run in-process through the wire harness (t
     evaluated in coqc (script_trace): per client what it was told (admitted / refused / served /
     kicked with the administrator-command FATAL error), after every operation total_clients and
     whether the process is gone (in-process), exit cause / exit status / coarse exit time window.
-    Model-free monitors check the property's own statements on the implementation's traces.
+    Races of the signal against login / BEGIN / COMMIT / connect are checked by membership in the
+    model's linearisations.  Model-free monitors check the property's own statements on the
+    implementation's traces.  Regressions on the binary: SIGINT under a CancelRequest flood must exit
+    (a hang is a violation), shutdown_timeout = 0 must be rejected at config parse.
+    Only open finding: E1 (a client answered but not yet counted when SIGINT is handled).
 
 Script format (also the replay format), one list per operation:
    ["connect", name, "normal"|"admin", "txn"|"sess", password_ok]   ["accept_late", name]  ["auth_late", name]
@@ -92,7 +98,7 @@ def model_expr(ops, tz=False, adv=False):
     sops, _, _ = compile_script(ops)
     if adv:
         sops = [x.replace("SEv Sigint", "SAdv Sigint") for x in sops]
-    return "script_trace (init %s 2048) [%s]" % ("true" if tz else "false", "; ".join(sops))
+    return "script_trace (init %s 2048 false) [%s]" % ("true" if tz else "false", "; ".join(sops))
 
 
 TOK = {"ORefused": "refused", "OAdmitted": "admitted", "OAuthFail": "authfail", "OKicked": "kicked", "OServed": "served"}
@@ -1065,15 +1071,6 @@ def check_races(run, mockd, reps):
         match = [an for an, (per, cause) in allowed.get(rn, {}).items() if per == o["per"]]
         key = "%s/%s%s" % (rn, match[0] if match else "UNEXPECTED", "(error frame lost to a TCP reset)" if reset else "")
         hist[key] = hist.get(key, 0) + 1
-        if match and not o.get("exited") and o.get("loop_silent"):
-            # every client is gone, the process neither exits nor serves: the known exit-channel deadlock, if the
-            # adversarial schedule of the matched linearisation wedges in the model
-            ops_m = defs[rn]["alts"][match[0]]
-            (adv,) = eval_scripts([("adv", ops_m)], adv=True)
-            if adv is not None and adv[-1]["wedged"]:
-                hist[key] -= 1
-                hist[key + "+WEDGED"] = hist.get(key + "+WEDGED", 0) + 1
-                continue
         if not match or not o.get("exited") or o.get("rc") != 0:
             run.violation("counterexample" if match else "tie-broken",
                           "race %s (order %d): observed %s exited=%s rc=%s; the model allows %s" % (rn, order, o["per"], o.get("exited"), o.get("rc"), {a: p for a, (p, _) in allowed.get(rn, {}).items()}),
@@ -1106,21 +1103,6 @@ def wedge_attempt(mockd, i, flood_tasks=6, flood_ms=700, pre=0.25):
         return res
     finally:
         B.finish()
-
-
-def known_wedge_case(ops, dis, loop_silent):
-    """True iff the only disagreement is 'the process did not exit where the eager schedule of the model exits by
-    the zero count', the main loop was observed to serve nobody any more, and the ADVERSARIAL schedule of the very
-    same script (Model.v settle_adv: clients react to the broadcast before the SIGINT arm queues its 0, drain arm
-    before exit arm) wedges in the model at that operation: the class of the known exit-channel deadlock."""
-    ex = [d for d in dis if d[0] == "exit"]
-    if len(ex) != 1 or any(d[0] not in ("exit", "time") for d in dis) or not loop_silent:
-        return False
-    info = ex[0][2]
-    if info["model"] != "ByZero" or info["impl"]:
-        return False
-    (adv,) = eval_scripts([("adv", ops)], adv=True)
-    return adv is not None and info["k"] < len(adv) and adv[info["k"]]["wedged"] and adv[info["k"]]["exited"] is None
 
 
 # ----------------------------------------------------------------------------- check
@@ -1176,7 +1158,6 @@ def check(run):
 
     extra = {}
     evals = 0
-    wedges_seen = []
     # (a) in-process
     scns = [wire_scenario(ops, t) for _, ops, t in cases]
     results = W.run_scenarios(bins["wire"], [s for s, _ in scns], workers=12, timeout=60)
@@ -1191,9 +1172,8 @@ def check(run):
             dis.append(("monitor", p))
         evals += 1
         run.cov["traces_validated_against_impl"] += 1
-        if dis and known_wedge_case(ops, dis, per.get("#zz", [""])[0].startswith("noreply")):
-            wedges_seen.append(("in-process", n, ops))
-            continue
+        if dis and any(d[0] == "exit" for d in dis):
+            dis.append(("info", "accept loop probe after the run: %s" % per.get("#zz")))
         if dis:
             wire_dis += 1
             kindv = "counterexample" if any(d[0] == "monitor" for d in dis) else "tie-broken"
@@ -1230,9 +1210,8 @@ def check(run):
             dis.append(("exit", "the process exited although the model does not"))
         evals += 1
         run.cov["traces_validated_against_impl"] += 1
-        if dis and known_wedge_case(ops, dis, o.get("noexit_sig") == "admin login not answered"):
-            wedges_seen.append(("binary", n, ops))
-            continue
+        if dis and o.get("noexit_sig"):
+            dis.append(("info", "main loop probe where the exit was due: %s" % o["noexit_sig"]))
         if dis:
             bin_dis += 1
             kindv = "counterexample" if any(d[0] == "monitor" for d in dis) else "tie-broken"
@@ -1247,32 +1226,32 @@ def check(run):
     evals += nrace
     run.cov["race_outcomes"] = hist
     run.log("races: %d runs, outcomes %s" % (nrace, hist))
-    wr = sum(v for k, v in hist.items() if k.endswith("+WEDGED"))
-    if wr:
-        run.known_finding("exit-channel deadlock hit in %d race run(s) on the binary (all clients gone, process neither exits nor accepts)" % wr, key="F-C17-wedge-seen-race")
     e1 = sum(v for k, v in hist.items() if "E1-" in k)
     if e1:
         run.known_finding("the process exited at once under a client that had just been told it is connected (SIGINT between its ReadyForQuery and its task's drain.send(1)): %d of %d login-vs-int races on the binary; model: c17_exit_before_counted_refuted" % (e1, sum(v for k, v in hist.items() if k.startswith("login-vs-int"))), key="F-C17-exit-before-counted-seen")
-    run.known_finding("client.rs: a client is counted (drain.send(1)) only AFTER it has been answered (ReadyForQuery); a SIGINT handled in between finds total_clients == 0 and the process exits immediately under the client (theorem c17_exit_before_counted_refuted, example ex_exit_before_counted)", key="F-C17-exit-before-counted")
 
-    # (c) known defects, re-confirmed on the binary
+    # (c) regressions of the repaired defects, on the binary
+    #  F-C17-zero-timeout: shutdown_timeout = 0 must be rejected when the configuration is parsed
     zt = zero_timeout_probe(bins["mockd"])
     run.cov["zero_timeout_probe"] = zt
-    if zt.get("confirmed"):
-        run.known_finding("shutdown_timeout = 0 is accepted by the config; after SIGINT the timer task panics (tokio interval of zero) and a session-mode client keeps the process alive for ever (model: c17_zero_timeout_no_timer, ex_zero_timeout)", key="F-C17-zero-timeout")
-    n_hunt = 0 if quick else 60
-    if n_hunt:
-        with ThreadPoolExecutor(max_workers=4) as ex:
-            hunts = list(ex.map(lambda i: wedge_attempt(bins["mockd"], i, flood_tasks=(6 if i % 2 == 0 else 64), pre=(0.25 if i % 2 == 0 else 0.15)), range(n_hunt)))
-        wedged = [h for h in hunts if h.get("exited") is False]
-        run.cov["wedge_hunt"] = {"attempts": n_hunt, "wedged": len(wedged), "sample": wedged[:1]}
-        if wedged:
-            run.known_finding("exit channel deadlock reproduced on the binary: SIGINT during a burst of CancelRequests, %d of %d attempts never exited (no exit at shutdown_timeout, SIGTERM ignored) — model schedule wedge_cancel, theorem c17_exit_liveness_refuted" % (len(wedged), n_hunt), key="F-C17-wedge")
-    run.cov["wedges_seen_in_correspondence"] = [{"level": l, "script": n, "ops": o} for l, n, o in wedges_seen[:5]]
-    if wedges_seen:
-        run.known_finding("exit-channel deadlock hit %d time(s) during the correspondence runs (e.g. %s script %s %s): the process neither exits nor accepts anybody; the adversarial schedule of the same script wedges in the model" %
-                          (len(wedges_seen), wedges_seen[0][0], wedges_seen[0][1], json.dumps(wedges_seen[0][2])), key="F-C17-wedge-seen")
-    run.known_finding("main.rs: exit_tx (capacity 1) is written by the loop that reads it; a second total_clients == 0 observation while the first exit message is unread blocks the main loop for ever (schedules wedge_inflight / wedge_cancel; theorems c17_wedge_origin, c17_wedge_is_forever, c17_exit_liveness_refuted)", key="F-C17-wedge-model")
+    evals += 1
+    if not zt.get("rejected"):
+        run.violation("counterexample", "shutdown_timeout = 0 is accepted by the configuration parser: %s" % zt,
+                      {"input": {"general.shutdown_timeout": 0}, "impl": zt, "expected": "config::parse fails (Config::validate)"})
+    #  F-C17-wedge / F-C17-sigint-full: SIGINT during a burst of CancelRequests with nobody connected: the process
+    #  must be gone at shutdown_timeout at the latest (model: c17_exit_liveness); a hang is a violation
+    n_hunt = 12 if quick else 60
+    with ThreadPoolExecutor(max_workers=4) as ex:
+        hunts = list(ex.map(lambda i: wedge_attempt(bins["mockd"], i, flood_tasks=(6 if i % 2 == 0 else 64), pre=(0.25 if i % 2 == 0 else 0.15)), range(n_hunt)))
+    hung = [h for h in hunts if h.get("exited") is False]
+    evals += len([h for h in hunts if "error" not in h])
+    run.cov["sigint_under_cancel_flood"] = {"attempts": n_hunt, "hung": len(hung), "start_errors": sum(1 for h in hunts if "error" in h)}
+    for h in hung[:2]:
+        run.violation("counterexample", "SIGINT during a burst of CancelRequests, no client connected: the process did not exit within 4 s (shutdown_timeout 1000 ms)%s" %
+                      ("" if h.get("exits_on_sigterm") else " and ignores SIGTERM"),
+                      {"input": {"schedule": "flood of bogus CancelRequests (+1,-1 each), SIGINT in the middle", "shutdown_timeout": 1000}, "impl": h,
+                       "theorem": "c17_exit_liveness / c17_never_wedged (model); mutant: c17_mutant_await_exit_liveness_refuted"})
+    run.known_finding("client.rs: a client is counted (drain.send(1)) only AFTER it has been answered (ReadyForQuery); a SIGINT handled in between finds total_clients == 0 and the process exits immediately under the client (theorem c17_exit_before_counted_refuted, example ex_exit_before_counted)", key="F-C17-exit-before-counted")
 
     run.cov["evaluations"] = evals
     run.cov["distinct_nontrivial"] = len(classes)
@@ -1293,25 +1272,23 @@ def check(run):
 
 
 def zero_timeout_probe(mockd):
-    """shutdown_timeout = 0, one session-mode client holding a server, SIGINT: does the process still exit?"""
-    B = Binary(mockd, 0, "tz")
-    if B.err:
-        B.finish(); return {"error": B.err[:200]}
+    """shutdown_timeout = 0 must not get past config::parse (the timer task would panic on a zero interval)."""
+    d = os.path.join(vlib.TMP, "c17", "tz_%d" % os.getpid())
+    os.makedirs(d, exist_ok=True)
     try:
-        c = PgClient(B.port)
-        c.login({"user": "u", "database": "sdb"}, "pw")
-        c.query("SELECT 1 /*tz*/")
-        os.kill(B.proc.pid, signal.SIGINT)
-        exited = B.wait_exit(2.5)
-        f, out = c.query("SELECT 2 /*tz*/", 1.0)
-        served = any(x["t"] == "Z" for x in f)
-        c.close()
-        gone_after_close = B.wait_exit(2.0)
-        log = open(os.path.join(B.dir, "pgcat.log")).read()
-        return {"exited_within_2500ms": exited, "client_still_served": served, "exits_after_client_left": gone_after_close,
-                "panic_logged": "panicked" in log, "confirmed": (not exited) and served}
+        cfg = make_toml(0, free_port()).replace("@PORT:b0@", "5432")
+        path = os.path.join(d, "pgcat.toml")
+        open(path, "w").write(cfg)
+        try:
+            p = subprocess.run([PGCAT_BIN, path, "--no-color"], stdout=subprocess.PIPE, stderr=subprocess.STDOUT, timeout=6, cwd=d)
+            out = p.stdout.decode("utf-8", "replace")
+            return {"rejected": p.returncode != 0 and "Waiting for clients" not in out, "rc": p.returncode,
+                    "message": [l for l in out.splitlines() if "shutdown_timeout" in l or "Config" in l][-2:]}
+        except subprocess.TimeoutExpired as ex:
+            return {"rejected": False, "rc": None, "message": "still running after 6 s: the configuration was accepted"}
     finally:
-        B.finish()
+        import shutil
+        shutil.rmtree(d, ignore_errors=True)
 
 
 def replay(run, path):
